@@ -108,7 +108,7 @@ def scalar(rng, refs, flow=False, depth=0):
 
 
 DOLLAR_PIECES = ["$", "$$", "$x", "a$", "$5", "é$", "$é", "€$", "$$$", "a$b", "$$x", "x$$", "$ $", "ü"]
-ACCESS_TAILS = ["", "", ".y", "[0]", '["k"]', ".y[1]", '["a b"].z']
+ACCESS_TAILS = ["", "", ".y", "[0]", '["k"]', ".y[1]", '["a b"].z', ".caf\u00e9", ".\u043a\u043b\u044e\u0447.x", '["\u00e9"].y', ".\u00fc[0]"]
 
 
 def dollar_text(rng, refs):
@@ -250,7 +250,9 @@ def gen_env(rng, imports, refs_in, final_nl=None, nvals=None):
     n = nvals if nvals is not None else 1 + rng.below(6)
     used = set()
     keys = [key_text(rng, used) for _ in range(n)]
-    refs = list(refs_in) + [k.strip('"') for k in keys if k.isascii() and not k.startswith('"')]
+    # unquoted names may be non-ASCII (bytes 0x85 / 0xA0 end a name in this parser: such keys are not used as references)
+    refs = list(refs_in) + [k.strip('"') for k in keys if not k.startswith('"') and (k.isascii() or (
+        k.isalpha() and not any(b in (0x85, 0xA0) for b in k.encode("utf-8"))))]
     if n:
         lines.append("values:")
     for k in keys:
